@@ -60,11 +60,13 @@ func (t ConfigureTransition) do(env *Environment) (err error) {
 		// err = t.taskman.ConfigureTasks(env.Id().Array(), tasks)
 		taskmanMessage := task.NewEnvironmentMessage(taskop.ConfigureTasks, env.Id(), activeTasks, nil)
 		t.taskman.MessageChannel <- taskmanMessage
-	}
-	incomingEv := <-env.stateChangedCh
-	// If some tasks failed to transition
-	if tasksStateErrors := incomingEv.GetTasksStateChangedError(); tasksStateErrors != nil {
-		return tasksStateErrors
+
+		// we only wait for an answer if we asked something
+		incomingEv := <-env.stateChangedCh
+		// If some tasks failed to transition
+		if tasksStateErrors := incomingEv.GetTasksStateChangedError(); tasksStateErrors != nil {
+			return tasksStateErrors
+		}
 	}
 
 	env.sendEnvironmentEvent(&event.EnvironmentEvent{EnvironmentID: env.Id().String(), State: "CONFIGURED"})
